@@ -753,6 +753,40 @@ func cmp(op Op, a, b *Term) *Term {
 			return True()
 		}
 	}
+	// finite-valued operands (ite/add trees over constants): decide by enumeration
+	if (a.Op == OpConst || a.Op == OpIte || a.Op == OpAdd) && (b.Op == OpConst || b.Op == OpIte || b.Op == OpAdd) && a.W <= 64 {
+		if va, ok1 := possibleConsts(a); ok1 {
+			if vb, ok2 := possibleConsts(b); ok2 && len(va)*len(vb) <= 256 {
+				allT, allF := true, true
+				for _, x := range va {
+					for _, y := range vb {
+						var r bool
+						if op == OpUlt {
+							r = uint64(x) < uint64(y)
+						} else {
+							sx, sy := int64(x), int64(y)
+							if a.W < 64 {
+								sx = sx << uint(64-a.W) >> uint(64-a.W)
+								sy = sy << uint(64-a.W) >> uint(64-a.W)
+							}
+							r = sx < sy
+						}
+						if r {
+							allF = false
+						} else {
+							allT = false
+						}
+					}
+				}
+				if allT {
+					return True()
+				}
+				if allF {
+					return False()
+				}
+			}
+		}
+	}
 	return TF.mk(op, 0, 0, 0, 0, "", nil, a, b)
 }
 
@@ -1386,38 +1420,81 @@ func printSpecial(sb *strings.Builder, t *Term, emit func(*Term)) {
 	}
 }
 
-// termVars returns the ids of the free variables of t (including variables of
-// their defining axioms), memoised.
-var varsMemo = map[int]map[int]bool{}
+// Connectivity of terms through shared variables, kept in one global
+// union-find: every term merges the classes of all variables below it. This
+// over-approximates "shares a variable with" (coarser slices, never unsound).
+var ufParent = map[int]int{}
+var repMemo = map[int]int{}
 
-func termVars(t *Term) map[int]bool {
-	if m, ok := varsMemo[t.ID]; ok {
-		return m
+func ufFind(x int) int {
+	for {
+		p, ok := ufParent[x]
+		if !ok || p == x {
+			return x
+		}
+		gp, ok2 := ufParent[p]
+		if ok2 {
+			ufParent[x] = gp
+		}
+		x = p
 	}
-	m := map[int]bool{}
-	varsMemo[t.ID] = m
-	if t.Op == OpVar {
-		m[t.ID] = true
+}
+
+func ufUnion(a, b int) int {
+	ra, rb := ufFind(a), ufFind(b)
+	if ra != rb {
+		ufParent[ra] = rb
+	}
+	return rb
+}
+
+// repOf returns a representative variable class of t (0: ground term).
+func repOf(t *Term) int {
+	if r, ok := repMemo[t.ID]; ok {
+		if r == 0 {
+			return 0
+		}
+		return ufFind(r)
+	}
+	r := 0
+	switch {
+	case t.Op == OpVar:
+		r = t.ID
+		ufParent[r] = r
+		repMemo[t.ID] = r
 		if t.Axiom != nil {
-			for k := range termVars(t.Axiom) {
-				m[k] = true
+			if a := repOf(t.Axiom); a != 0 {
+				r = ufUnion(r, a)
 			}
 		}
-		return m
-	}
-	if t.Op == OpUF && len(t.Args) == 0 {
-		return m
-	}
-	for _, a := range t.Args {
-		for k := range termVars(a) {
-			m[k] = true
+		return ufFind(r)
+	default:
+		for _, a := range t.Args {
+			if ar := repOf(a); ar != 0 {
+				if r == 0 {
+					r = ar
+				} else {
+					r = ufUnion(r, ar)
+				}
+			}
+		}
+		if t.Op == OpUF && len(t.Args) > 0 && !strings.HasPrefix(t.Name, "@") {
+			fid := -hashName(t.Name)
+			if _, ok := ufParent[fid]; !ok {
+				ufParent[fid] = fid
+			}
+			if r == 0 {
+				r = fid
+			} else {
+				r = ufUnion(r, fid)
+			}
 		}
 	}
-	if t.Op == OpUF {
-		// applications of the same uninterpreted function are related by congruence
-		m[-hashName(t.Name)] = true
+	repMemo[t.ID] = r
+	if r == 0 {
+		return 0
 	}
-	return m
+	return ufFind(r)
 }
 
 func hashName(s string) int {
@@ -1429,44 +1506,14 @@ func hashName(s string) int {
 	return h + 1
 }
 
-// slicePC keeps the conjuncts of pc that are (transitively) connected to goal
-// through shared variables.
+// slicePC keeps the conjuncts of pc connected to goal (call repOf on every
+// conjunct of every query first, so that the classes are complete).
 func slicePC(pc []*Term, goal *Term) []*Term {
-	live := map[int]bool{}
-	for k := range termVars(goal) {
-		live[k] = true
-	}
-	keep := make([]bool, len(pc))
-	vs := make([]map[int]bool, len(pc))
-	for i, c := range pc {
-		vs[i] = termVars(c)
-	}
-	changed := true
-	for changed {
-		changed = false
-		for i := range pc {
-			if keep[i] {
-				continue
-			}
-			hit := len(vs[i]) == 0
-			for k := range vs[i] {
-				if live[k] {
-					hit = true
-					break
-				}
-			}
-			if hit {
-				keep[i] = true
-				changed = true
-				for k := range vs[i] {
-					live[k] = true
-				}
-			}
-		}
-	}
+	g := repOf(goal)
 	var out []*Term
-	for i, c := range pc {
-		if keep[i] {
+	for _, c := range pc {
+		r := repOf(c)
+		if r == 0 || (g != 0 && ufFind(r) == ufFind(g)) {
 			out = append(out, c)
 		}
 	}
